@@ -46,7 +46,7 @@ class ScalarInt:
                 "Int cannot represent non 32-bit signed integer value: "
                 f"< {value} >."
             )
-        return result
+        return int(result)
 
     def coerce_input(self, value: Any) -> int:
         """
